@@ -100,7 +100,7 @@ Print Assumptions C08_preserve_buried_partial.
      nonblank_write W o   o is not SetValue a None with a a formula cell of W
                           (a buried input is not written blank: a reference
                           node would hand the blank on, and the dependants of
-                          a blank node are not reset) *)
+                          a blank node are not reset: Refuted/C08_buried_weak_blank.v) *)
 
 Theorem C08_frozen_independent_weak : forall W sem, wf W -> sem_nonblank_weak W sem -> stored_ok W sem ->
   forall I O s, Inv W sem s -> (forall o, In o O -> o < wb_n W) ->
